@@ -4,6 +4,7 @@ import os
 import subprocess
 
 import core
+from props import nlpboosts
 
 PROP = dict(
     id="C01",
@@ -26,8 +27,11 @@ PROP = dict(
     level_note=("Trusted: Lean kernel; axioms propext/Classical.choice/Quot.sound only; translator, harness, differ. Hypotheses (TuningWF): BM25F "
                 "parameters sane (PROVED for the regenerated defaultParams()); idf(N,df) >= 0 for df <= N (PROVED over the reals for the "
                 "bm25IDF formula with Mathlib's Real.log_nonneg, and df <= N PROVED for the built index; on floats: monitored); "
-                "calculateIntentBoost / calculateBoostForCommand / TF-IDF similarity >= 0 (un-modelled NLP code: monitored on the real values "
-                "of every generated case, class oracle-negative-factor); the fuzzy library's sort is a permutation sorted by score "
+                "calculateIntentBoost > 0 and calculateBoostForCommand >= 1 (PROVED for the modelled NLP layer - Model/Boosts.lean over "
+                "Model/Nlp.lean, every literal / factor / operator of the boost functions regenerated into Gen/Boosts.lean and checked by "
+                "`decide` (boost_rules_wf); universal_modelled_nlp / cli_modelled_nlp carry no NLP hypothesis; the layer is validated bit for "
+                "bit by the `boosts` domain and the search driver runs with it, comparing it with the real values of every case); TF-IDF "
+                "similarity >= 0 (monitored on the real values of every generated case, class oracle-negative-factor); the fuzzy library's sort is a permutation sorted by score "
                 "(sort.Stable contract; the driver accepts Go's order only if it is one). 'Finite' has no content in an ordered field: "
                 "float overflow / NaN is covered by the monitors only, on boosts of magnitude <= 1e6. The cached path is C05's theorem "
                 "(transparent) — here it is monitored only. The semantic (embedding) boost stage is not modelled: no embeddings are shipped "
@@ -37,8 +41,12 @@ PROP = dict(
           "one-letter, long, re-cased), all option fields varied, limits in {-1,0,1,2,3,5,10,50,N+1}; a directed tie-heavy stream (k identical "
           "entries, k around the limit; typo-only queries matching all of them; limits <=0, 1..N, >N); legacy stream (pipeline search + recovery "
           "searches incl. one-letter substrings contained in many commands); CLI stream (real binary, recovery reached through long descriptions); "
-          "shipped-database stream. A case is non-trivial if at least one answer in it is non-empty; distinct = distinct op sequences"),
-    assumptions=["TuningWF (see level_note): idf/NLP factors/TF-IDF similarities non-negative, fuzzy sort is a sorted permutation",
+          "shipped-database stream; boosts stream (databases of 0-16 (thorough: -60) commands aimed at every branch of calculateIntentBoost / "
+          "calculateBoostForCommand for 4-6 analysed queries each: every intent, makepkg penalty, compression special case, description-only "
+          "matches, hints via first field vs whole command, contexts in the raw command vs the lower-cased text, synonym expansion, upper-case / "
+          "non-ASCII / invalid UTF-8 / blank commands; vocabulary = regenerated literals and table words). A case is non-trivial if at least one answer in it is non-empty; distinct = distinct op sequences"),
+    assumptions=["TuningWFRest (see level_note): idf and TF-IDF similarities non-negative, fuzzy sort is a sorted permutation; the NLP factors are "
+                 "no longer assumed (modelled and proved: universal_modelled_nlp)",
                  "limits below 2^60 (Limit*5 / Limit*2 overflow is C10's subject)",
                  "cached path: C05.transparent"],
 )
@@ -46,13 +54,15 @@ PROP = dict(
 THEOREMS = ["Wtf.C01." + t for t in (
     "params_match", "default_limits_pos", "universal", "limit_in_force", "source_params_sane", "idf_formula_nonneg",
     "fuzzy_scores_unit_interval", "error_only_in_typo_matcher", "nonempty_of_match", "factor_stage_preserves", "legacy_pipeline", "legacy_limit_in_force",
-    "cli", "cli_limit_pos", "recovery_raw")]
+    "cli", "cli_limit_pos", "recovery_raw",
+    "boost_rules_wf", "modelled_factors", "tuningWF_of_modelled_nlp", "universal_modelled_nlp", "cli_modelled_nlp")]
 
 ASSERTIONS = ["bm25:defaultParams", "bm25:params-literal", "constants:typecheck"] + ["searchparams:" + s for s in (
     "SearchUniversal", "default-limit", "default-term-cap", "final-truncation", "fuzzy-fallback-truncated", "limitResults-shape",
     "append-cap", "preserve-count", "rerank-window", "rerank-blend", "nlp-emphasis", "cooccurrence", "fuzzy-candidate-cap",
     "fuzzy-normalisation", "fuzzy-clamp", "legacy-default-limit", "legacy-shape", "sortAndLimitResults-shape", "recovery-scores",
     "recovery-order", "cli-recovery-truncated", "cli-recovery-filtered", "FilterResults-shape", "config-max-results", "validate-limit")]
+ASSERTIONS += nlpboosts.ASSERTIONS  # the NLP layer of the search model is modelled too (Model/Boosts.lean over Model/Nlp.lean)
 
 # ---- legacy entry points with the scorer modelled (Props/C01b.lean; correspondence domain legacy2) ----
 THEOREMS += ["Wtf.C01." + t for t in (
@@ -162,6 +172,9 @@ def run(ctx):
     if not ctx.stage_build():
         return
     quick = ctx.tier == "quick"
+    # the modelled NLP layer against the real calculateIntentBoost / calculateBoostForCommand / analysis (the search streams below
+    # run the model with that layer and also compare it with the real values of each of their cases)
+    nlpboosts.correspond(ctx, 250 if quick else 6000)
     ctx.correspond("search", 400 if quick else 10000, nontrivial=nontrivial, shrink=False)
     ctx.correspond("search", 150 if quick else 4000, name="search-c01", args={"stream": "c01"}, nontrivial=nontrivial, shrink=False, seed_offset=3)
     ctx.correspond("legacy", 300 if quick else 8000, nontrivial=nontrivial, shrink=False, seed_offset=5)
